@@ -1413,4 +1413,96 @@ theorem runSkips_eq_run (pinned : Bool) (limit : Int) (stops : List Bytes) :
             | some r => rw [h'] at hdone; simp at hdone
     · simp only [h, finish_done, Option.isSome_some, if_true, hl, and_self]
 
+/-! ## K. a reader that stops reading (client disconnect) -/
+
+/-- the chunks only grow -/
+theorem run_out_grows (pinned : Bool) (limit : Int) (stops : List Bytes) :
+    ∀ (evs : List Ev) (st : St), ∃ new, (run pinned limit stops st evs).out = st.out ++ new := by
+  intro evs
+  induction evs with
+  | nil =>
+    intro st
+    unfold run
+    split
+    · exact finish_out_grows st _ _
+    · exact ⟨[], by simp⟩
+  | cons ev rest ih =>
+    intro st
+    unfold run
+    split
+    · exact finish_out_grows st _ _
+    · cases ev with
+      | eos => exact finish_out_grows { st with numPredicted := st.numPredicted + 1 } _ _
+      | piece p =>
+        simp only
+        obtain ⟨n1, h1⟩ := stepPiece_out_grows pinned stops st p
+        split
+        · exact ⟨n1, h1⟩
+        · obtain ⟨n2, h2⟩ := ih (stepPiece pinned stops st p)
+          exact ⟨n1 ++ n2, by rw [h2, h1, List.append_assoc]⟩
+
+/-- running the script `e1 ++ e2` is running `e1` and, if the sequence is still running, `e2` -/
+theorem run_append (pinned : Bool) (limit : Int) (stops : List Bytes) (e2 : List Ev) :
+    ∀ (e1 : List Ev) (st : St), st.done = none →
+      run pinned limit stops st (e1 ++ e2) =
+        if (run pinned limit stops st e1).done.isSome then run pinned limit stops st e1
+        else run pinned limit stops (run pinned limit stops st e1) e2 := by
+  intro e1
+  induction e1 with
+  | nil =>
+    intro st hd
+    simp only [List.nil_append]
+    by_cases hl : limit > 0 ∧ (st.numPredicted : Int) ≥ limit
+    · have h1 : run pinned limit stops st [] = st.finish .length .limit := by simp [run, hl]
+      rw [h1]
+      simp only [finish_done, Option.isSome_some, if_true]
+      cases e2 with
+      | nil => simp [run, hl]
+      | cons e es => simp [run, hl]
+    · have h1 : run pinned limit stops st [] = st := by simp [run, hl]
+      rw [h1, hd]; simp
+  | cons ev rest ih =>
+    intro st hd
+    simp only [List.cons_append]
+    by_cases hl : limit > 0 ∧ (st.numPredicted : Int) ≥ limit
+    · have h1 : ∀ X, run pinned limit stops st (ev :: X) = st.finish .length .limit := by
+        intro X; simp [run, hl]
+      rw [h1, h1]; simp
+    · cases ev with
+      | eos =>
+        have h1 : ∀ X, run pinned limit stops st (.eos :: X) =
+            ({ st with numPredicted := st.numPredicted + 1 }).finish .stop .eos := by
+          intro X; simp [run, hl]
+        rw [h1, h1]; simp
+      | piece p =>
+        have h1 : ∀ X, run pinned limit stops st (.piece p :: X) =
+            if (stepPiece pinned stops st p).done.isSome then stepPiece pinned stops st p
+            else run pinned limit stops (stepPiece pinned stops st p) X := by
+          intro X; simp [run, hl]
+        rw [h1, h1]
+        by_cases hdone : (stepPiece pinned stops st p).done.isSome = true
+        · simp [hdone]
+        · simp only [hdone]
+          apply ih
+          cases h' : (stepPiece pinned stops st p).done with
+          | none => rfl
+          | some r => rw [h'] at hdone; simp at hdone
+
+/-- **A reader that stops reading at any time holds a prefix of the chunks.**  Whatever the script
+    continues with (`e2`), whatever the reader's schedule and the channel capacity were up to the
+    moment it stops (`e1` consumed), the chunks it has received are a prefix (as a list of chunks) of
+    the chunks `run` streams for the whole script. -/
+theorem received_prefix_any_time (pinned : Bool) (limit : Int) (stops : List Bytes) (cap tail : Nat)
+    (sched : List Nat) (e1 e2 : List Ev) :
+    (runSched pinned limit stops cap tail init {} sched e1).2.recv <+:
+      (run pinned limit stops init (e1 ++ e2)).out := by
+  obtain ⟨_, h2, _⟩ := runSched_eq_run pinned limit stops cap tail e1 init {} sched rfl rfl
+  have h3 : (run pinned limit stops init e1).out <+: (run pinned limit stops init (e1 ++ e2)).out := by
+    rw [run_append pinned limit stops e2 e1 init rfl]
+    split
+    · exact List.prefix_refl _
+    · obtain ⟨new, hnew⟩ := run_out_grows pinned limit stops e2 (run pinned limit stops init e1)
+      exact ⟨new, hnew.symm⟩
+  exact List.IsPrefix.trans ⟨_, h2⟩ h3
+
 end OllamaVerif.Stop
